@@ -36,7 +36,9 @@ ASSUMPTIONS = [
     "call nodes of different expressions distinct",
 ]
 RULE = ("one case = one generated program run once (plus a replay on the same backend for every 4th case; for every 3rd case an "
-        "earlier execution on the same backend has already made half of the argument-producing calls, so they are cache hits). All Argument and "
+        "earlier execution on the same backend has already made half of the argument-producing calls, so they are cache hits; for "
+        "another 3rd the program is run twice with some consuming tasks re-versioned in between, so `main` is a cache hit whose "
+        "expression is deserialized while the re-versioned calls get new call nodes). All Argument and "
         "ArgumentResult rows of the calls made by `main` are read back as (call, slot, value hash, set of upstream calls) and "
         "compared with the model rows and with the specification (task calls reachable through non-task expressions). "
         "distinct = distinct programs; a program without any task-valued argument is trivial")
@@ -177,7 +179,10 @@ def _fixed_corpus():
                   [("ka", ("cont", [f1, ("lit", 1), g.call("t", True, [("lit", 6)])]))])
     w_cc = g.call("t", True, [("catch", g.call("boom", True, [("lit", 7)])), ("catch", g.call("t", True, [("lit", 8)]))])
     # order matters: run() runs case i with a warm-up execution when i % 3 == 1 (w_cc: catch served from its own cache)
-    return [("cont", [w_dup]), ("cont", [w_cc]), ("cont", [w_def]), ("cont", [w_def2, w_catch]), ("cont", [w_np]),
+    # index 2 (i % 3 == 2): re-versioned second execution; sink(cond(flag(), src(1), src(2))), tags, catch as arguments
+    w_de = g.call("t", True, [("cond", g.call("t", True, [("lit", 20)]), g.call("t", True, [("lit", 21)]), g.call("t", True, [("lit", 22)])),
+                              ("tags", g.call("lst", True, [("lit", 23)])), ("catch", g.call("t", True, [("lit", 24)]))])
+    return [("cont", [w_dup]), ("cont", [w_cc]), ("cont", [w_de]), ("cont", [w_def]), ("cont", [w_def2, w_catch]), ("cont", [w_np]),
             ("cont", [("lit", 1)])]
 
 
@@ -327,6 +332,7 @@ def evaluated_calls(e, out, top=True):
 
 
 WARM = [False]
+REVER = [False]
 
 
 def has_catch(x):
@@ -347,6 +353,8 @@ def kind_of(a, seen):
     """structural class of an argument, for the signature of a violation"""
     if WARM[0] and has_catch(a):
         return "cached-catch"
+    if REVER[0] and has_sched(a):
+        return "deserialized-scheduler-expr"
 
     def dup_sched(x):
         if x[0] in ("cond", "catch", "tags"):
@@ -370,7 +378,23 @@ def rows_of(e):
 
 
 # ------------------------------------------------------------------ one case on the real code
-def run_program(ctx, prog, replay_run=False, warm=False):
+REVERSIONABLE = ["t", "lst", "d1", "d2", "d3"]
+
+
+def reversion(names, version):
+    """give the tasks a new version (= a new task hash, as after editing them) or restore the original one"""
+    import gm_tasks21 as T
+    from redun.task import get_task_registry
+    reg = get_task_registry()
+    for n in names:
+        task = T.TASKS[n]
+        reg._decrement_hash_count(task)
+        task.version = version
+        task.hash = task._calc_hash()
+        reg._task_hash_counts[task.hash] += 1
+
+
+def run_program(ctx, prog, replay_run=False, warm=False, rever=False):
     import gm_common as G
     import gm_tasks21 as T
     from redun.backends.db import Argument, CallNode
@@ -393,6 +417,25 @@ def run_program(ctx, prog, replay_run=False, warm=False):
                     return None
         run = G.CtlRun(ctx.rng, ctx.rng.choice(["fifo", "lifo", "rand"]), backend=backend)
         res = run.run(T.main(prog))
+        final_from = 0
+        old_nodes = set()
+        if rever and res[0] == "ok":
+            old_nodes = {h for (h,) in run.backend.session.query(CallNode.call_hash).all()}
+            # second execution on the same database after some of the consuming tasks were re-versioned: `main` is a
+            # single-reduction cache hit, so the expression it returned is DESERIALIZED, while the re-versioned calls get
+            # new call nodes whose arguments are recorded from that deserialized expression
+            names = [n for n in REVERSIONABLE if ctx.rng.random() < 0.6] or ["t"]
+            final_from = len(watch.order)
+            reversion(names, "v2")
+            try:
+                run = G.CtlRun(ctx.rng, ctx.rng.choice(["fifo", "lifo", "rand"]), backend=run.backend)
+                res = run.run(T.main(prog))
+            finally:
+                reversion(names, None)
+            mj = [watch.jobs[j] for j in watch.order[final_from:] if watch.jobs[j].task_name == "gm21.main"]
+            if not (mj and mj[0].was_cached):
+                ctx.mismatch("harness: main was not served from the cache in the re-versioned execution", case, model="cached",
+                             impl=repr(mj and mj[0].was_cached))
         if replay_run:
             run2 = G.CtlRun(ctx.rng, "fifo", backend=run.backend)
             res2 = run2.run(T.main(prog))
@@ -424,20 +467,29 @@ def run_program(ctx, prog, replay_run=False, warm=False):
             elif isinstance(v, int):
                 label[n.call_hash] = v
         got = {}
-        for n in nodes:
+        final_nodes = {watch.jobs[j].call_hash for j in watch.order[final_from:]}
+        # re-versioned history: a call may have two nodes (old and new task hash) with the same label; the rows of the node
+        # the last execution produced are the ones that count, so those are read last
+        for n in sorted(nodes, key=lambda n: (n.call_hash in final_nodes and n.call_hash not in old_nodes, n.call_hash)):
             if n.call_hash not in label:
                 continue
+            fresh = rever and n.call_hash not in old_nodes
             for a in n.arguments:
                 slot = ("p", a.arg_position) if a.arg_position is not None else ("k", KW.get(a.arg_key, 99))
                 ups = set()
                 for r in a.arg_results:
-                    ups.add(label.get(r.result_call_hash, "dangling:" + r.result_call_hash[:8]))
-                if (label[n.call_hash], slot) in got:
-                    ctx.violation("C21-duplicate-argument-row", "two Argument rows for one parameter of a call", case)
-                got[(label[n.call_hash], slot)] = (ups, a.value_hash, a.arg_position, a.arg_key)
+                    if fresh and r.result_call_hash not in final_nodes:
+                        ups.add("stale:" + str(label.get(r.result_call_hash)))     # a new node linked to a node no job of this execution has
+                    else:
+                        ups.add(label.get(r.result_call_hash, "dangling:" + r.result_call_hash[:8]))
+                key = (label[n.call_hash], slot)
+                if key in got and got[key][4] == (n.call_hash in old_nodes) and not rever:
+                    ctx.violation("C21-duplicate-argument-row", "two Argument rows for one parameter of a call", case,
+                                  expected=key, actual=n.task_name)
+                got[key] = (ups, a.value_hash, a.arg_position, a.arg_key, n.call_hash in old_nodes)
         # received values: from the job objects
         received = {}
-        for jid in watch.order:
+        for jid in watch.order[final_from:]:
             r = watch.jobs[jid]
             if r.task_name == "gm21.main" or r.eval_args is None or not r.prov:
                 continue
@@ -449,9 +501,9 @@ def run_program(ctx, prog, replay_run=False, warm=False):
                 received.setdefault((lab, ("k", KW.get(n, 99))), registry.get_hash(v))
         G.release(run.backend)
     # ---- oracle: the property on the real rows
-    WARM[0] = warm
+    WARM[0], REVER[0] = warm, rever
     want = rows_of(prog)
-    WARM[0] = False
+    WARM[0] = REVER[0] = False
     for key, (prods, kind) in sorted(want.items(), key=repr):
         if key not in got:
             ctx.violation("C21-argument-row-missing", "a recorded call has no Argument row for a parameter it received", case,
@@ -460,6 +512,7 @@ def run_program(ctx, prog, replay_run=False, warm=False):
         ups = got[key][0]
         if ups != prods:
             sig = {"default": "C21-upstream-missing-default-expr", "cached-catch": "C21-upstream-missing-cached-catch",
+                   "deserialized-scheduler-expr": "C21-upstream-missing-deserialized-scheduler-expr",
                    "duplicate-scheduler-expr": "C21-upstream-missing-duplicate-scheduler-expr"}.get(kind, "C21-upstream-mismatch")
             if ups - prods:
                 sig = "C21-upstream-spurious"
@@ -496,12 +549,12 @@ def run(ctx):
         progs.append(gen_program(rng))
     results = []
     for i, p in enumerate(progs):
-        got = run_program(ctx, p, replay_run=(i % 4 == 0), warm=(i % 3 == 1))
+        got = run_program(ctx, p, replay_run=(i % 4 == 0), warm=(i % 3 == 1), rever=(i % 3 == 2))
         want = rows_of(p)
         kinds = {k for _, k in want.values()}
         ctx.case(key=repr(p) if nontrivial(p) else None, sample={"program": repr(p)[:300], "rows": len(want)},
                  rows=min(len(want) // 4 * 4, 40), defaults="default" in kinds, dup_sched="duplicate-scheduler-expr" in kinds,
-                 recover="recover" in kinds, warm=(i % 3 == 1), with_upstream=sum(1 for pr, _ in want.values() if pr) // 3 * 3)
+                 recover="recover" in kinds, warm=(i % 3 == 1), reversioned=(i % 3 == 2), with_upstream=sum(1 for pr, _ in want.values() if pr) // 3 * 3)
         results.append((p, got))
     replies = ctx.model("C21", ["eval F " + to_model(p, None) for p, _ in results])
     for (p, got), reply in zip(results, replies):
